@@ -13,9 +13,10 @@ TraceLog == ndJsonDeserialize(TraceFile)
 VARIABLES l, rc, produced, outcome, last, returned, pausedT, pausedP, buf, traces
 vars == <<l, rc, produced, outcome, last, returned, pausedT, pausedP, buf, traces>>
 EmptyF == [x \in {} |-> 0]
-Init == /\ l = 1 /\ rc = FALSE /\ produced = EmptyF /\ outcome = EmptyF /\ last = EmptyF /\ returned = {} /\ pausedT = {} /\ pausedP = {} /\ buf = {} /\ traces = 0
+Init == /\ l = 1 /\ rc = FALSE /\ produced = EmptyF /\ outcome = EmptyF /\ last = EmptyF /\ returned = {} /\ pausedT = {} /\ pausedP = {} /\ buf = EmptyF /\ traces = 0
 Ev == TraceLog[l]
 Put(f, k, v) == [x \in (DOMAIN f) \cup {k} |-> IF x = k THEN v ELSE f[x]]
+Get(f, k) == IF k \in DOMAIN f THEN f[k] ELSE 0
 \* a produced record is visible to this consumer when it is plain, or its transaction committed; read_uncommitted sees all data
 Visible(id) == LET q == produced[id] IN ~rc \/ q.txn = 0 \/ (<<q.p, q.txn>> \in DOMAIN outcome /\ outcome[<<q.p, q.txn>>] = "committed")
 Decided(id) == LET q == produced[id] IN q.txn = 0 \/ (<<q.p, q.txn>> \in DOMAIN outcome /\ outcome[<<q.p, q.txn>>] # "open")
@@ -37,18 +38,19 @@ Scan(recs, i, lst) == IF i > Len(recs) THEN [why |-> "", last |-> lst]
 Missing == {i \in DOMAIN produced : Decided(i) /\ Visible(i) /\ i \notin returned}
 Checks(e) ==
   CASE e.ev = "poll_ret" -> << <<Scan(e.recs, 1, last).why = "", Scan(e.recs, 1, last).why>> >>
-    [] e.ev = "fetch_buffered" -> << <<e.id \notin buf, "OnFetchRecordBuffered twice for a record without OnFetchRecordUnbuffered in between">> >>
-    [] e.ev = "fetch_unbuffered" -> << <<e.id \in buf, "OnFetchRecordUnbuffered for a record that is not buffered (twice, or never buffered)">> >>
+    \* a record can be fetched again after a discard, and unbuffered hooks of a discard are dispatched asynchronously: the two
+    \* bufferings may overlap in the trace; what must hold is one unbuffered per buffered, never more unbuffered than buffered
+    [] e.ev = "fetch_unbuffered" -> << <<Get(buf, e.id) > 0, "OnFetchRecordUnbuffered for a record more often than OnFetchRecordBuffered">> >>
     [] e.ev = "drained" -> << <<Missing = {}, "consumer never returned a visible record (skipped)">>,
                               <<e.bufferedRecords = 0 /\ e.bufferedBytes = 0, "BufferedFetchRecords/Bytes not zero although nothing is buffered">> >>
-    [] e.ev = "closed" -> << <<buf = {}, "a record passed to OnFetchRecordBuffered was never passed to OnFetchRecordUnbuffered">>,
+    [] e.ev = "closed" -> << <<\A i \in DOMAIN buf : buf[i] = 0, "a record passed to OnFetchRecordBuffered was never passed to OnFetchRecordUnbuffered">>,
                              <<e.bufferedRecords = 0 /\ e.bufferedBytes = 0, "BufferedFetchRecords/Bytes not zero after Close">> >>
     [] e.ev = "driver_failed" -> << <<FALSE, "driver died (client goroutines blocked forever)">> >>
     [] OTHER -> <<>>
 Ok(e) == \A i \in DOMAIN Checks(e) : Checks(e)[i][1]
 Why(e) == LET C == Checks(e) bad == {i \in DOMAIN C : ~C[i][1]} IN IF bad = {} THEN "" ELSE C[CHOOSE i \in bad : \A j \in bad : i <= j][2]
 Apply(e) ==
-  CASE e.ev = "reset" -> /\ rc' = e.rc /\ produced' = EmptyF /\ outcome' = EmptyF /\ last' = EmptyF /\ returned' = {} /\ pausedT' = {} /\ pausedP' = {} /\ buf' = {} /\ traces' = traces + 1
+  CASE e.ev = "reset" -> /\ rc' = e.rc /\ produced' = EmptyF /\ outcome' = EmptyF /\ last' = EmptyF /\ returned' = {} /\ pausedT' = {} /\ pausedP' = {} /\ buf' = EmptyF /\ traces' = traces + 1
     [] e.ev = "produced" -> produced' = Put(produced, e.id, [topic |-> e.topic, part |-> e.part, offset |-> e.offset, p |-> e.p, txn |-> e.txn]) /\ UNCHANGED <<rc, outcome, last, returned, pausedT, pausedP, buf, traces>>
     [] e.ev = "txn_begin" -> outcome' = Put(outcome, <<e.p, e.txn>>, "open") /\ UNCHANGED <<rc, produced, last, returned, pausedT, pausedP, buf, traces>>
     [] e.ev = "txn_end" -> outcome' = Put(outcome, <<e.p, e.txn>>, IF e.committed THEN "committed" ELSE "aborted") /\ UNCHANGED <<rc, produced, last, returned, pausedT, pausedP, buf, traces>>
@@ -59,8 +61,8 @@ Apply(e) ==
     [] e.ev = "resume" -> /\ (IF e.part < 0 THEN pausedT' = pausedT \ {e.topic} /\ UNCHANGED pausedP ELSE pausedP' = pausedP \ {<<e.topic, e.part>>} /\ UNCHANGED pausedT)
                           /\ UNCHANGED <<rc, produced, outcome, last, returned, buf, traces>>
     [] e.ev = "resume_all" -> pausedT' = {} /\ pausedP' = {} /\ UNCHANGED <<rc, produced, outcome, last, returned, buf, traces>>
-    [] e.ev = "fetch_buffered" -> buf' = buf \cup {e.id} /\ UNCHANGED <<rc, produced, outcome, last, returned, pausedT, pausedP, traces>>
-    [] e.ev = "fetch_unbuffered" -> buf' = buf \ {e.id} /\ UNCHANGED <<rc, produced, outcome, last, returned, pausedT, pausedP, traces>>
+    [] e.ev = "fetch_buffered" -> buf' = Put(buf, e.id, Get(buf, e.id) + 1) /\ UNCHANGED <<rc, produced, outcome, last, returned, pausedT, pausedP, traces>>
+    [] e.ev = "fetch_unbuffered" -> buf' = Put(buf, e.id, Get(buf, e.id) - 1) /\ UNCHANGED <<rc, produced, outcome, last, returned, pausedT, pausedP, traces>>
     [] OTHER -> UNCHANGED <<rc, produced, outcome, last, returned, pausedT, pausedP, buf, traces>>
 Next == l <= Len(TraceLog) /\ Ok(Ev) /\ Apply(Ev) /\ l' = l + 1
 Spec == Init /\ [][Next]_vars
